@@ -5,7 +5,9 @@ from common import *
 ID = "C13"
 THEOREM_FILES = ["Summer.Props.C13"]
 TASK = "task"
-RULE = ("stratified models (1-3 stratifications, full and partial); 12 queries per model with empty / partial / full / impossible filters over "
+RULE = ("stratified models (1-3 stratifications, full and partial; flow names shared between entry, exit and transition flows in a third of the "
+        "models); filtered raw flow outputs and compartment outputs of a solved model vs sums over brute-force selected flow-rate / state columns; "
+        "12 queries per model with empty / partial / full / impossible filters over "
         "strata of any stratification: query_compartments (with and without a name; string, collection and predicate values), query_flows "
         "(name, source filter, destination filter, both), compared with the model's matchers and with a brute-force selection written "
         "directly from the property sentence; non-trivial when the filter is non-empty")
@@ -33,7 +35,7 @@ def rand_filter(r, comps, kind):
 
 def task(W, payload):
     r = random.Random(f"C13:{payload['seed']}:{payload['index']}")
-    prog = Gen(r, Opts(max_strats=3, force_strat=True, max_flows=6, allow_requests=False, allow_computed=False)).program()
+    prog = Gen(r, Opts(max_strats=3, force_strat=True, max_flows=6, allow_requests=False, allow_computed=False, shared_names_bias=0.35)).program()
     S = fresh_session(W)
     out = mk_out(prog)
     if not S.build(prog["build"]):
@@ -99,6 +101,80 @@ def task(W, payload):
                                          "task": {"module": "c13", "fn": "task", "payload": payload}, "program": prog["build"]})
         if flt:
             out["cases"].append(h + ":" + str(qi))
+    derived_selectors(r, S, m, prog, comps, flow_names, out, payload, h)
     if payload["index"] == 0:
         out["sample"] = {"program": prog["build"][:8], "comps": comps[:6]}
     return out
+
+
+def derived_selectors(r, S, m, prog, comps, flow_names, out, payload, h):
+    """flow and compartment derived outputs select by the same rule: request filtered outputs, solve the model (Euler) and compare
+    every output with the sum over brute-force selected columns of the implementation's own flow rates / states"""
+    import numpy as np
+    reqs = []
+    want = {}
+    for j in range(5):
+        kind = r.choice(["partial", "partial", "full", "empty"])
+        flt = rand_filter(r, comps, kind)
+        if j % 2 == 0 and flow_names:
+            name = r.choice(flow_names)
+            which = r.choice(["src", "dst", "both"])
+            fs = flt if which in ("src", "both") else []
+            fd = flt if which in ("dst", "both") else []
+            sel = [i for i, f in enumerate(m.flows) if f.name == name
+                   and (f.source is None or all(f.source.strata.get(k) == v for k, v in fs))
+                   and (f.dest is None or all(f.dest.strata.get(k) == v for k, v in fd))]
+            if not sel:
+                continue      # a request that selects nothing is refused (C17)
+            op = {"op": "request", "kind": "flow", "name": f"sel{j}", "flow": name, "raw": True, "src_strata": fs, "dst_strata": fd, "save": True}
+            want[f"sel{j}"] = ("flow", sel, op)
+        else:
+            names = r.sample(sorted(set(c[0] for c in comps)), r.randint(1, min(2, len(set(c[0] for c in comps)))))
+            sel = [i for i, c in enumerate(m.compartments) if c.name in names and all(c.strata.get(k) == v for k, v in flt)]
+            if not sel:
+                continue
+            op = {"op": "request", "kind": "comp", "name": f"sel{j}", "comps": names, "strata": flt, "save": True}
+            want[f"sel{j}"] = ("comp", sel, op)
+        reqs.append(op)
+    if not reqs:
+        return
+    before = len(S.log)
+    if not S.build(reqs):
+        if not S.both_rejected:
+            tag_diffs(out, S, before, "c13", payload, prog, ("S1",))
+        else:
+            fail(out, "a derived-output request whose selection is non-empty was refused", "c13", payload, requests=reqs, err=str(getattr(S, "reject_msg", "")), program=prog["build"])
+        return
+    params = prog["params"]
+    py, ln = S.run(params, "euler")
+    tag_diffs(out, S, before, "c13", payload, prog, ("S8",))
+    out["evals"] += 1
+    if not py.get("ok"):
+        return
+    outputs = np.array(py["outputs"]); derived = dict((k, v) for k, v in py["derived"])
+    if not np.all(np.isfinite(outputs)) or np.abs(outputs).max() > 1e7:
+        bump(out, "blow_up"); return
+    times = [float(t) for t in m.times][:len(outputs)]
+    if len(times) < 2:
+        bump(out, "blow_up"); return
+    runner = S.I._get_runner({k: float(Fr(v)) for k, v in params.items()})
+    import jax.numpy as jnp
+    pf = {k: float(Fr(v)) for k, v in params.items()}
+    rates = []
+    for i, t in enumerate(times):
+        st = runner.impl_dict["one_step"](pf, t, jnp.array(outputs[i]))
+        rates.append(np.asarray(st.flow_rates))
+    rates = np.array(rates)
+    for nm, (kind, sel, op) in want.items():
+        if nm not in derived:
+            fail(out, "a saved derived output is missing from the results", "c13", payload, request=op, program=prog["build"]); continue
+        got = np.array(derived[nm])[:len(times)]
+        brute = (rates[:, sel].sum(axis=1) if kind == "flow" else outputs[:, sel].sum(axis=1)) if sel else np.zeros(len(times))
+        out["evals"] += 1
+        bump(out, "derived_selector:" + kind)
+        if (op.get("src_strata") or op.get("dst_strata") or op.get("strata")):
+            out["cases"].append(h + ":do:" + nm)
+        if not vec_close(list(got), list(brute), 1e-9):
+            fail(out, f"a filtered {kind} derived output is not the sum over exactly the {kind}s with that name whose strata contain the filter "
+                      "(a missing end never excludes a flow)", "c13", payload, request=op, selected=sel, got=list(map(float, got)), want=list(map(float, brute)),
+                 program=prog["build"], params=params)
